@@ -92,7 +92,7 @@ pub fn encode(n: &Node, out: &mut Vec<u8>) {
     }
 }
 
-pub const KINDS: [&str; 7] = ["to-indef", "to-def", "widen-head", "swap-map-entries", "chunk-string", "untag-258", "inside-cbor-wrap"];
+pub const KINDS: [&str; 8] = ["to-indef", "to-def", "widen-head", "swap-map-entries", "chunk-string", "untag-258", "inside-cbor-wrap", "head-8-bytes"];
 
 fn widen(ai: u8, arg: &[u8]) -> Option<(u8, Vec<u8>)> {
     let v = val(ai, arg);
@@ -113,6 +113,9 @@ fn eligible(n: &Node, kind: usize) -> bool {
         (2, Node::Str { ai, .. }) | (2, Node::Seq { ai, .. }) | (2, Node::Tag { ai, .. }) => *ai < 27,
         (3, Node::Seq { major: 5, items, .. }) | (3, Node::SeqIndef { major: 5, items }) => items.len() >= 4,
         (4, Node::Str { major: 2, .. }) => true,
+        (4, Node::Str { major: 3, payload, .. }) => payload.iter().all(|b| *b < 0x80),
+        (7, Node::Atom { major, ai, .. }) => *major != 7 && *ai < 27,
+        (7, Node::Str { ai, .. }) | (7, Node::Seq { ai, .. }) | (7, Node::Tag { ai, .. }) => *ai < 27,
         (5, Node::Tag { ai, arg, .. }) => val(*ai, arg) == 258,
         (6, Node::Tag { ai, arg, inner }) => val(*ai, arg) == 24 && match &**inner {
             Node::Str { major: 2, payload, .. } => matches!(parse(payload, 0, 0), Some((_, e)) if e == payload.len()),
@@ -144,6 +147,11 @@ fn apply(n: &mut Node, kind: usize, rng: &mut Rng) {
         (2, Node::Tag { ai, arg, inner }) => widen(*ai, arg).map(|(a, g)| Node::Tag { ai: a, arg: g, inner: inner.clone() }),
         (3, Node::Seq { major, ai, arg, items }) => { let mut it = items.clone(); swap_entries(&mut it, rng); Some(Node::Seq { major: *major, ai: *ai, arg: arg.clone(), items: it }) }
         (3, Node::SeqIndef { major, items }) => { let mut it = items.clone(); swap_entries(&mut it, rng); Some(Node::SeqIndef { major: *major, items: it }) }
+        (7, Node::Atom { major, ai, arg }) => Some(Node::Atom { major: *major, ai: 27, arg: val(*ai, arg).to_be_bytes().to_vec() }),
+        (7, Node::Str { major, ai, arg, payload }) => Some(Node::Str { major: *major, ai: 27, arg: val(*ai, arg).to_be_bytes().to_vec(), payload: payload.clone() }),
+        (7, Node::Seq { major, ai, arg, items }) => Some(Node::Seq { major: *major, ai: 27, arg: val(*ai, arg).to_be_bytes().to_vec(), items: items.clone() }),
+        (7, Node::Tag { ai, arg, inner }) => Some(Node::Tag { ai: 27, arg: val(*ai, arg).to_be_bytes().to_vec(), inner: inner.clone() }),
+        (4, Node::Str { major, payload, .. }) if payload.is_empty() && rng.chance(1, 2) => Some(Node::StrIndef { major: *major, chunks: vec![] }),
         (4, Node::Str { major, payload, .. }) => {
             let k = 1 + rng.below(3) as usize;
             let mut chunks = vec![];
@@ -231,13 +239,21 @@ pub fn mutant(bytes: &[u8], rng: &mut Rng) -> Option<(Vec<u8>, Vec<&'static str>
     Some((out, kinds))
 }
 
-/// every single-site mutant of `kind` (first `limit` sites, pre-order)
+/// single-site mutants of `kind`: every eligible site (pre-order) when there are at most `limit`,
+/// otherwise `limit` sites spread evenly and always including the first and the LAST site (the
+/// last container / head of a value is where an under-consuming decoder goes unnoticed)
 pub fn single_site_mutants(bytes: &[u8], kind: usize, limit: usize, rng: &mut Rng) -> Vec<Vec<u8>> {
     let Some((tree, end)) = parse(bytes, 0, 0) else { return vec![] };
     if end != bytes.len() { return vec![]; }
-    let c = count(&tree, kind).min(limit);
+    let c = count(&tree, kind);
+    if c == 0 || limit == 0 { return vec![]; }
+    let sites: Vec<usize> = if c <= limit { (0..c).collect() } else {
+        let mut v: Vec<usize> = (0..limit).map(|i| if limit == 1 { c - 1 } else { i * (c - 1) / (limit - 1) }).collect();
+        v.dedup();
+        v
+    };
     let mut res = vec![];
-    for site in 0..c {
+    for site in sites {
         let mut t = tree.clone();
         let mut target = site as isize;
         apply_at(&mut t, kind, &mut target, rng);
